@@ -190,22 +190,25 @@ _NORM = {}
 
 
 def _normalizer(shape):
-  """NormalizingExperimenter over a stub whose 100 normalisation samples follow one of three concrete profiles."""
+  """NormalizingExperimenter over a stub whose normalisation samples follow one of three concrete profiles (100 samples) or
+  consist of a single sample (shape 3) / two samples (shape 4)."""
   with NoTracing():
     if shape not in _NORM:
-      prof = [lambda i: float(i % 7) - 3.0, lambda i: 5.0, lambda i: 1e6 * ((i * 37) % 11) - 2e6][shape]
+      prof = [lambda i: float(i % 7) - 3.0, lambda i: 5.0, lambda i: 1e6 * ((i * 37) % 11) - 2e6,
+              lambda i: 2.5, lambda i: float(i)][shape]
+      n = {3: 1, 4: 2}.get(shape, 100)
       base = Stub(_problem1(), fn=lambda params, i: {'obj': prof(i)})
-      w = norm.NormalizingExperimenter(base, num_normalization_samples=100)
-      _NORM[shape] = (base, w, [prof(i) for i in range(100)])
+      w = norm.NormalizingExperimenter(base, num_normalization_samples=n)
+      _NORM[shape] = (base, w, [prof(i) for i in range(n)])
     return _NORM[shape]
 
 
 def normalizing_order(shape: int, v1: float, v2: float) -> bool:
   """
-  pre: 0 <= shape <= 2
+  pre: 0 <= shape <= 4
   post: _
   """
-  shape = conc(shape, 0, 2)
+  shape = conc(shape, 0, 4)
   if not (_finite(v1) and _finite(v2)):
     return True
   base, w, samples = _normalizer(shape)
@@ -611,6 +614,72 @@ def contract(kind: int, batch: int, first: int) -> bool:
           ok, why = False, ['batch vs single', pt, _metrics(t), _metrics(t2)]
   reach('contract')
   return finish(ok, (kind, batch, first), obs=None if ok else [KINDS[kind], why])
+
+
+def built_from_copy(which: int, mutation: int) -> bool:
+  """
+  pre: 0 <= which <= 1 and 0 <= mutation <= 2
+  post: _
+  """
+  which, mutation = conc(which, 0, 1), conc(mutation, 0, 2)
+  with NoTracing():
+    # the caller keeps the statement it built the experimenter from and edits it later: the experimenter is unaffected
+    p = _problem2() if which else _problem1(dims=2)
+    keep = copy.deepcopy(p)
+    if which:
+      e = npexp.MultiObjectiveNumpyExperimenter(lambda arr: [float(arr[0]), 1.0 - float(arr[0])], p)
+      pt = {'x': 0.25}
+    else:
+      e = npexp.NumpyExperimenter(lambda arr: float(arr[0] - arr[1]), p)
+      pt = {'x0': 0.75, 'x1': 0.25}
+    if mutation == 0:
+      p.search_space.root.add_float_param('injected', 0.0, 1.0)
+    elif mutation == 1:
+      p.metric_information.append(vz.MetricInformation(name='injected', goal=vz.ObjectiveMetricGoal.MINIMIZE))
+    else:
+      for m in p.metric_information:
+        m.goal = vz.ObjectiveMetricGoal.MINIMIZE if m.goal.is_maximize else vz.ObjectiveMetricGoal.MAXIMIZE
+    ok = e.problem_statement() == keep
+    t = vz.Trial(parameters=dict(pt))
+    e.evaluate([t])
+    ok = ok and t.status == vz.TrialStatus.COMPLETED and sorted(_metrics(t)) == _objective_names(keep)
+    w = flip.SignFlipExperimenter(e)                    # a wrapper built afterwards sees the original statement
+    ok = ok and len(w.problem_statement().search_space.parameters) == len(keep.search_space.parameters)
+  reach('built_from_copy')
+  return finish(ok, (which, mutation))
+
+
+def factory_independent(noise: int, seed: int, n_between: int) -> bool:
+  """
+  pre: 0 <= noise <= 2 and 0 <= seed <= 2 and 0 <= n_between <= 3
+  post: _
+  """
+  noise, seed, n_between = conc(noise, 0, 2), conc(seed, 0, 2), conc(n_between, 0, 3)
+  with NoTracing():
+    # two experimenters made by the same seeded factory are independent objects with the same reproducible behaviour,
+    # whatever was evaluated on the first one in between
+    def make():
+      return experimenter_factory.SingleObjectiveExperimenterFactory(
+          base_factory=experimenter_factory.BBOBExperimenterFactory('Sphere', 2),
+          noise_type=[None, 'SEVERE_GAUSSIAN', 'MODERATE_UNIFORM'][noise], noise_seed=seed,
+          num_normalization_samples=[0, 5, 1][seed])
+    fac = make()
+    pts = [{'x0': 1.0, 'x1': -2.0}, {'x0': 0.5, 'x1': 0.25}, {'x0': -4.0, 'x1': 3.0}]
+
+    def run(e):
+      ts = [vz.Trial(parameters=dict(p)) for p in pts]
+      e.evaluate(ts)
+      return [_metrics(t) for t in ts]
+    e1 = fac()
+    for _ in range(n_between):
+      run(e1)                                            # traffic on the first experimenter
+    e2 = fac()
+    ref = run(make()())                                  # a fresh factory, fresh experimenter: the reference stream
+    got = run(e2)
+    ok = e2 is not e1 and got == ref
+    ok = ok and all(m is not None and all(math.isfinite(v) for v in m.values()) for m in got)
+  reach('factory_independent')
+  return finish(ok, (noise, seed, n_between), obs=None if ok else [got, ref])
 
 
 def by_value(kind: int, mutation: int) -> bool:
